@@ -19,3 +19,11 @@ pub assume_specification<T, U, F: FnOnce(T) -> U>[Option::<T>::map_or](o: Option
     ensures
         o.is_none() ==> r == default,
         o.is_some() ==> f.ensures((o.unwrap(),), r);
+
+pub assume_specification<'a, T: Copy>[Option::<&'a T>::copied](o: Option<&'a T>) -> (r: Option<T>)
+    ensures
+        o.is_none() ==> r.is_none(),
+        o.is_some() ==> r == Some(*o.unwrap());
+
+pub assume_specification[<u32 as From<char>>::from](c: char) -> (r: u32)
+    ensures r == c as u32;
